@@ -22,6 +22,7 @@ type seqHist struct {
 	Ops    []string
 	init   map[string]interface{}
 	failed bool
+	ended  bool // the history cannot be modelled any further (nothing wrong was seen)
 	paired bool // letters must come from the pairing's domain (C05)
 }
 
@@ -386,6 +387,33 @@ func (h *seqHist) opAppendColumns() {
 	if rng.Intn(3) == 0 {
 		flat = h.carve(cols)
 		h.Ops[len(h.Ops)-1] += " (columns cut from one buffer)"
+	}
+	if k >= 2 && rng.Intn(6) == 0 {
+		// a malformed call: one of several columns has a letter too many or too few. A call that reports an error has
+		// supplied no letters: the container must be as it was (the comparison after this operation sees to that).
+		bad := rng.Intn(k)
+		if len(cols[bad]) > 0 && rng.Intn(2) == 0 {
+			cols[bad] = cols[bad][:len(cols[bad])-1]
+		} else {
+			cols[bad] = append(cols[bad][:len(cols[bad]):len(cols[bad])], alphabet.QLetter{L: cols[0][0].L, Q: 1})
+		}
+		h.Ops[len(h.Ops)-1] = fmt.Sprintf("AppendColumns(%s) with column %d of the wrong height (%d letters), refused", strings.Join(desc, ","), bad, len(cols[bad]))
+		var err error
+		func() {
+			defer func() {
+				if e := recover(); e != nil {
+					err = fmt.Errorf("panic: %v", e)
+				}
+			}()
+			err = h.x.(seq.AlignedAppender).AppendColumns(cols...)
+		}()
+		if err == nil {
+			h.ended = true // accepted: what the container should now hold is anybody's guess; the history ends here
+			h.r.Count("malformed_append_columns_accepted", 1)
+			return
+		}
+		h.r.Count("malformed_append_columns_refused", 1)
+		return
 	}
 	if err := h.x.(seq.AlignedAppender).AppendColumns(cols...); err != nil {
 		h.fail("append-error", "AppendColumns returned "+err.Error())
